@@ -131,8 +131,8 @@ Definition panic_class (tag : string) : string :=
   else if String.eqb tag "voteTracker_too_many_equivocators" then "equivocators"
   else if String.eqb tag "proposalStore_too_many_assemblers" then "assemblers"
   else if String.eqb tag "voteAggregator_bad_round" then "bad_round"
-  else if prefix_eqb "voteTracker_pre" tag || prefix_eqb "proposalTracker_pre" tag || prefix_eqb "proposalManager_pre" tag then "pre"
-  else if prefix_eqb "voteTracker_post" tag || prefix_eqb "proposalTracker_post" tag then "post"
+  else if prefix_eqb "voteTracker_pre" tag || prefix_eqb "proposalTracker_pre" tag || prefix_eqb "proposalManager_pre" tag then "contract"
+  else if prefix_eqb "voteTracker_post" tag || prefix_eqb "proposalTracker_post" tag then "contract"
   else if prefix_eqb "makeBundle" tag then "makeBundle"
   else if prefix_eqb "genBundle" tag then "index"
   else if String.eqb tag "player_bad_cast" then "cast"
